@@ -27,8 +27,7 @@ fn c23_leaf_accessors_total() {
     let pg = Pg(kani::any());
     let idx: usize = kani::any();
     if let Some(leaf) = vs::is_ok_forget(LeafNode::from_page(&pg.0[..])) {
-        // minus-known: F-C23-1 (cell_count larger than the slot area) is excluded here and is its own obligation
-        kani::assume(leaf.cell_count() as usize <= (PAGE_SIZE - LEAF_CONTENT_START) / SLOT_SIZE);
+        let _ = leaf.cell_count(); // any cell_count, including corrupted ones larger than the slot area
         let _ = leaf.free_space();
         let _ = leaf.next_leaf();
         let s = vs::is_ok_forget(leaf.slot_at(idx)).is_some();
@@ -43,19 +42,5 @@ fn c23_leaf_accessors_total() {
     let n: usize = kani::any();
     kani::assume(n < PAGE_SIZE);
     assert!(vs::is_ok_forget(LeafNode::from_page(&pg.0[..n])).is_none());
-}
-
-//@ props=C23 kind=known finding=F-C23-1 small_pages=1
-/// KNOWN FINDING F-C23-1 (leaf): with a corrupted cell_count (> 2045) slot_at(index) slices
-/// data[24 + 8*index ..] beyond the 16 KiB page and panics instead of returning an error
-#[kani::proof]
-#[kani::unwind(12)]
-fn c23_known_leaf_slot_at_large_cell_count() {
-    let pg = Pg(kani::any());
-    let idx: usize = kani::any();
-    if let Some(leaf) = vs::is_ok_forget(LeafNode::from_page(&pg.0[..])) {
-        kani::assume(leaf.cell_count() as usize > (PAGE_SIZE - LEAF_CONTENT_START) / SLOT_SIZE);
-        let _ = vs::is_ok_forget(leaf.slot_at(idx)).is_some();
-    }
 }
 }
